@@ -1,6 +1,7 @@
 package interp
 
 import (
+	"fmt"
 	"go/token"
 	"go/types"
 	"math"
@@ -147,6 +148,20 @@ func init() {
 		return nil
 	})
 
+	// The number of processors is part of the environment: an arbitrary value of the set that the
+	// properties quantify over (one choice per path).
+	procs := func(fr *frame, a []value) value {
+		if cx.gomaxprocs == 0 {
+			cx.gomaxprocs = []int{1, 2, 16}[cx.Choose(3, nil)]
+			if cx.choices == nil {
+				cx.choices = map[string]string{}
+			}
+			cx.choices["env:GOMAXPROCS#0"] = fmt.Sprint(cx.gomaxprocs) // the replay sets it
+		}
+		return cx.gomaxprocs
+	}
+	reg("runtime.GOMAXPROCS", procs)
+	reg("runtime.NumCPU", procs)
 	reg("sort.Slice", sortSliceModel)
 	reg("sort.SliceStable", sortSliceModel)
 	reg("sort.Strings", func(fr *frame, a []value) value {
